@@ -67,8 +67,8 @@ def add_with_id(ctx, rule):
     sh = q.shape(a, roles)
     ctx.check(sh == "RawToken{dst_line:arg2,dst_col:arg3,src_line:arg4,src_col:arg5,src_id:SID,name_id:NID,is_range:arg9}", rule, fn, "fields",
               "the token's fields are the parameters of the same meaning, in order", detail=sh)
-    expect_defs(ctx, rule, b, sid, roles, {"Not(0)": "none", "SourceMapBuilder::add_source_with_id(arg1,some(arg6),arg7)": "interned"}, ["none", "interned"], "source id")
-    expect_defs(ctx, rule, b, nid, roles, {"Not(0)": "none", "SourceMapBuilder::add_name(arg1,some(arg8))": "interned"}, ["none", "interned"], "name id")
+    expect_defs(ctx, rule, b, sid, roles, {"Not(0)": "none", "SourceMapBuilder::add_source_with_id(arg1,try(arg6),arg7)": "interned"}, ["none", "interned"], "source id")
+    expect_defs(ctx, rule, b, nid, roles, {"Not(0)": "none", "SourceMapBuilder::add_name(arg1,try(arg8))": "interned"}, ["none", "interned"], "name id")
     for loc, arg, what in ((sid, "arg6", "source"), (nid, "arg8", "name")):
         for sh, site, _ in q.def_shapes(b, loc, roles):
             if sh == "Not(0)":
@@ -106,7 +106,7 @@ def add_with_id(ctx, rule):
 # ---------------------------------------------------------------------------------------------
 def rewrite_roles(b):
     roles = {}
-    for l in named(b, lambda s: s == "some(TokenIter::next(var:TokenIter))"):
+    for l in named(b, lambda s: s == "try(TokenIter::next(var:TokenIter))"):
         roles[l] = "token"
     for l in typed_vars(b, "builder::SourceMapBuilder"):
         roles[l] = "builder"
@@ -189,7 +189,7 @@ def builder_calls(ctx, rule):
 def strip_prefixes(ctx, rule):
     b = ctx.body(B + "strip_prefixes")
     fn = b.path
-    src = named(b, lambda s: s == "some(Iterator::next(var:IterMut<Arc<str>>))")
+    src = named(b, lambda s: s == "try(Iterator::next(var:IterMut<Arc<str>>))")
     pfx = [l for l in sorted(b.var_names) if b.locals[l]["mut"] and b.local_ty(l) == "alloc::string::String"]
     if not ctx.check(len(src) == 1 and len(pfx) == 1, rule, fn, "roles", "source slot and normalised prefix are recognisable"):
         return
@@ -258,7 +258,7 @@ def cache_coherence(ctx, rule):
     cache_w = [(bi, si, q.shape(b.expr_of_rvalue(s["rv"]))) for bi, si, s, it in b.locations() if not it and s["k"] == "assign" and _is_field(s["place"], "sources_prefixed")]
     shapes = sorted(s for _, _, s in cache_w)
     ROOT = "Option::filter(Option::as_ref(arg1.source_root),%s(Not(str::is_empty(p1))))" % LAM
-    ok = len(shapes) == 2 and shapes[0] == "Option::None{}" and shapes[1] == "Option::Some{0:Iterator::collect(Iterator::map(slice::iter(arg1.sources),%s(SourceMap::prefix_source(^some(%s),p1))))}" % (LAM, ROOT)
+    ok = len(shapes) == 2 and shapes[0] == "Option::None{}" and shapes[1] == "Option::Some{0:Iterator::collect(Iterator::map(slice::iter(arg1.sources),%s(SourceMap::prefix_source(^try(%s),p1))))}" % (LAM, ROOT)
     ctx.check(ok, rule, b.path, "cache:rebuilt-from-all-sources", "the cache is rebuilt from *all* sources when the root is non-empty and cleared otherwise", detail=str(shapes))
     if root_w:
         ctx.check(must_pass(b, root_w[0][0], [bi for bi, _, _ in cache_w]) , rule, b.path, "cache:every-path", "after the root changes every path updates the cache")
@@ -270,7 +270,7 @@ def cache_coherence(ctx, rule):
     s = ctx.body("types::SourceMap::set_source")
     calls = [q.shape(s.expr_of_call(t)) for bi, t in s.calls()]
     ok1 = "arg1.sources[cast<usize>(arg2)]" in calls
-    ok2 = "some(Option::as_mut(arg1.sources_prefixed))[cast<usize>(arg2)]" in calls
+    ok2 = "try(Option::as_mut(arg1.sources_prefixed))[cast<usize>(arg2)]" in calls
     ok3 = "SourceMap::prefix_source(Option::unwrap(Option::as_ref(arg1.source_root)),arg3)" in calls
     ctx.check(ok1 and ok2 and ok3, rule, s.path, "set_source:patch", "set_source stores the raw name and patches the same index of the cache with prefix_source(current root, value)", detail=str(calls)[:400])
     g = ctx.body("types::SourceMap::get_source")
@@ -347,7 +347,7 @@ def into_sourcemap(ctx, rule):
         ctx.check(ok, rule, fn, nm, "%s is applied on every path" % want, detail=str(calls))
     ig = [(bi, q.shape(b.expr_of_call(t), roles)) for bi, t in q.calls_to(b, "types::SourceMap::add_to_ignore_list")]
     it = named(b, lambda s: s == "IntoIterator::into_iter(arg1.ignore_list)")
-    ok = len(ig) == 1 and ig[0][1] == "SourceMap::add_to_ignore_list(sm,some(Iterator::next(var:IntoIter<u32>)))" and len(it) == 1
+    ok = len(ig) == 1 and ig[0][1] == "SourceMap::add_to_ignore_list(sm,try(Iterator::next(var:IntoIter<u32>)))" and len(it) == 1
     ctx.check(ok, rule, fn, "ignore_list", "every element of the builder's ignore list is added to the map", detail=str(ig))
 
 
@@ -395,20 +395,20 @@ def contents_resize(ctx, rule):
 # C08
 def flatten_roles(b):
     roles = {}
-    for l in named(b, lambda s: s == "some(TokenIter::next(var:TokenIter))"):
+    for l in named(b, lambda s: s == "try(TokenIter::next(var:TokenIter))"):
         roles[l] = "token"
     for l in typed_vars(b, "builder::SourceMapBuilder"):
         roles[l] = "builder"
     for l in named(b, lambda s: s.startswith("SourceMapBuilder::add(")):
         roles[l] = "raw"
-    for l in named(b, lambda s: s == "some(SourceMapSectionIter::next(var:SourceMapSectionIter))"):
+    for l in named(b, lambda s: s == "try(SourceMapSectionIter::next(var:SourceMapSectionIter))"):
         roles[l] = "section"
     for l in sorted(b.var_names):
         if "Cow<" in b.local_ty(l) and "SourceMap" in b.local_ty(l):
             roles[l] = "map"
-    for l in named(b, lambda s: s == "SourceMapSection::get_offset(some(SourceMapSectionIter::next(var:SourceMapSectionIter))).0"):
+    for l in named(b, lambda s: s == "SourceMapSection::get_offset(try(SourceMapSectionIter::next(var:SourceMapSectionIter))).0"):
         roles[l] = "off_line"
-    for l in named(b, lambda s: s == "SourceMapSection::get_offset(some(SourceMapSectionIter::next(var:SourceMapSectionIter))).1"):
+    for l in named(b, lambda s: s == "SourceMapSection::get_offset(try(SourceMapSectionIter::next(var:SourceMapSectionIter))).1"):
         roles[l] = "off_col"
     return roles
 
@@ -486,7 +486,7 @@ def flatten_translation(ctx, rule):
         ctx.check(not extra, rule, fn, "contents:independent", "contents are carried over under exactly the two documented conditions", ctx.site(b, bi), detail=str(extra))
     # R4 arms
     ms = [s for s, _, _ in q.def_shapes(b, [l for l, n in r.items() if n == "map"][0], r)]
-    GS = "some(SourceMapSection::get_sourcemap(section))"
+    GS = "try(SourceMapSection::get_sourcemap(section))"
     want = sorted(["Cow::Borrowed{0:regular(%s)}" % GS, "Cow::Borrowed{0:hermes(%s).sm}" % GS, "Cow::Owned{0:try(SourceMapIndex::flatten(index(%s)))}" % GS])
     ctx.check(sorted(ms) == want, rule, fn, "arms", "regular sections are borrowed, nested indexes flattened recursively (error propagated), Hermes sections use their inner map", detail=str(ms))
     errs = [bi for bi, si in q.err_variant_constructions(b, "CannotFlatten")]
